@@ -563,6 +563,9 @@ pub struct World {
     pub next_ctx: u64,
     pub events: u64,
     pub monitors: bool,
+    /// check after every call that the armed timers cover what each port state waits for
+    /// (valid only while the host arms and fires timers exactly as requested)
+    pub timer_cover: bool,
     /// property whose scenario is running (for attribution of panics etc.)
     pub max_freq_ppm: f64,
     pub step_threshold_units: i128,
@@ -598,6 +601,7 @@ impl World {
             next_ctx: 1,
             events: 0,
             monitors: true,
+            timer_cover: false,
             max_freq_ppm: 400.0,
             step_threshold_units: (MS) as i128,
             last_call: None,
@@ -789,7 +793,6 @@ impl World {
         self.digest.u128(self.now());
         self.digest.u64(a);
         self.digest.u64(b);
-        self.shape.byte(kind);
         self.events += 1;
     }
 
@@ -924,6 +927,9 @@ impl World {
         let summary = self.execute_actions(ni, pi, actions, name, ch);
         if self.monitors {
             self.monitor_after(ni, &before, name);
+        }
+        if self.timer_cover {
+            self.monitor_timers(ni, name);
         }
         self.last_call = Some((ni, pi, name, summary.clone()));
         summary
@@ -1193,6 +1199,9 @@ impl World {
         for pi in 0..n {
             self.end_bmca_port(ni, pi, ch);
         }
+        if self.timer_cover {
+            self.monitor_timers(ni, "bmca");
+        }
         self.record_state(ni);
     }
 
@@ -1352,6 +1361,43 @@ impl World {
         // C17 part 1
         if lock_nested() > 0 {
             self.out.violate("C17", "C17.nested_lock_acquisition", format!("call={call}"), format!("instance-state lock acquired while already held during {call} on node {ni} (nested count {})", lock_nested()));
+        }
+    }
+
+    /// C12 structural companion: the armed timers must cover what the state waits for.
+    pub fn monitor_timers(&mut self, ni: usize, call: &'static str) {
+        for pi in 0..self.nodes[ni].ports.len() {
+            let hp = &self.nodes[ni].ports[pi];
+            if !matches!(hp.slot, Slot::Running(_)) {
+                continue;
+            }
+            let st = hp.state();
+            let mut need: Vec<usize> = Vec::new();
+            // Only states whose *only* way forward is the timer: a Listening port without a
+            // qualified master is left alone by the BMCA, a Master port emits only from its timers,
+            // a Slave port requests delay only from its timer. Passive and Slave ports also leave
+            // their state through the BMCA once the foreign-master records age out, so a missing
+            // receipt timer there is not a stuck state.
+            match st {
+                PState::Listening => need.push(T_RECEIPT),
+                PState::Slave => need.push(T_DELAY),
+                PState::Master => {
+                    need.push(T_ANNOUNCE);
+                    need.push(T_SYNC);
+                }
+                _ => {}
+            }
+            for t in need {
+                if !hp.armed(t) {
+                    let p2p = hp.spec.p2p;
+                    self.out.violate(
+                        "C12",
+                        "C12.state_waits_on_unarmed_timer",
+                        format!("state={:?} timer={} p2p={}", st, TIMER_NAMES[t], p2p),
+                        format!("node {ni} port {pi} is {:?} after {call} but its {} timer is not armed (seq {}, t={:.3}s)", st, TIMER_NAMES[t], self.seq(), tt_to_secs(self.now())),
+                    );
+                }
+            }
         }
     }
 
